@@ -35,11 +35,11 @@ ANCHORS = [("AutoCarver/discretizers/utils/grouped_list.py", "GroupedList." + m)
 DECIDING_ANCHORS = [("AutoCarver/discretizers/utils/grouped_list.py", "GroupedList.group"),
                     ("AutoCarver/discretizers/utils/grouped_list.py", "GroupedList.get_group")]
 EXHAUSTIVE = {"quick": True, "thorough": True}
-EXHAUSTIVE_NOTE = "exhaustive only for the DFS sub-space (universe of 4 values, depth bound quick=4 / thorough=6)"
+EXHAUSTIVE_NOTE = "exhaustive only for the DFS sub-space (universe of 4 values, depth bound quick=4 / thorough=5)"
 U4 = [0, "", 1.5, "__NAN__"]
-DEPTH = {"quick": 4, "thorough": 6}
-N_RANDOM = {"quick": 160, "thorough": 3200}  # batches of 100 histories
-REQUIRED_COUNTERS = {"quick": {"nodes": 20000, "falsy_leader_lookups": 100}, "thorough": {"nodes": 1000000, "falsy_leader_lookups": 100}}
+DEPTH = {"quick": 4, "thorough": 5}
+N_RANDOM = {"quick": 160, "thorough": 6400}  # batches of 100 histories
+REQUIRED_COUNTERS = {"quick": {"nodes": 20000, "falsy_leader_lookups": 100}, "thorough": {"nodes": 5000000, "falsy_leader_lookups": 100}}
 
 
 def budget_s(tier):
